@@ -4,8 +4,10 @@ cd "$(dirname "$0")/.."
 rc=0
 for p in benign/*.patch; do
   for c in C15 C19 C20; do
-    out=$(tools/mutant_run.sh $p $c ${BENIGN_ARGS:---tier quick} 2>&1 | tail -1)
+    full=$(tools/mutant_run.sh $p $c ${BENIGN_ARGS:---tier quick} 2>&1)
+    out=$(echo "$full" | tail -1)
     echo "$out"
+    echo "$out" | grep -q "exit=0" || echo "$full" | grep -E "HARNESS|VIOLATION|^  " | head -6
     echo "$out" | grep -q "exit=0" || rc=1
   done
 done
